@@ -237,6 +237,15 @@ func instr(in ssa.Instruction) J {
 	case *ssa.RunDefers:
 	case *ssa.Select:
 		o["blocking"] = x.Blocking
+		var sts []map[string]any
+		for _, s := range x.States {
+			m := map[string]any{"dir": int(s.Dir), "chan": operand(s.Chan)}
+			if s.Send != nil {
+				m["send"] = operand(s.Send)
+			}
+			sts = append(sts, m)
+		}
+		o["states"] = sts
 	case *ssa.Send:
 		o["chan"], o["x"] = operand(x.Chan), operand(x.X)
 	case *ssa.Slice:
